@@ -252,13 +252,13 @@ def find_calls(node: ast.AST, suffix: str) -> List[ast.Call]:
 
 def own_nodes(fn: ast.FunctionDef):
     """ast.walk that does not descend into nested function definitions or lambdas."""
-    stack = list(ast.iter_child_nodes(fn))
+    stack = list(ast.iter_child_nodes(fn))[::-1]
     while stack:
         n = stack.pop()
-        yield n
+        yield n                 # source order (pre-order), so that stable sorts by line keep the order of statements sharing a line
         if isinstance(n, (ast.FunctionDef, ast.AsyncFunctionDef, ast.Lambda, ast.ClassDef)):
             continue
-        stack.extend(ast.iter_child_nodes(n))
+        stack.extend(list(ast.iter_child_nodes(n))[::-1])
 
 
 # ------------------------------------------------------------------------------------------------
